@@ -238,7 +238,12 @@ def strategies():
         'indent': st.one_of(st.sampled_from([1, 2, 4, 8]), st.integers(1, 8)),
         'sort_dict_keys': st.booleans(),
     })
+    # options that must not change anything as long as they do not truncate: a finite depth far above any generated
+    # nesting, max_seq_len None / far above any generated length (exercise the non-default arithmetic paths)
+    neutral = st.fixed_dictionaries({}, optional={'depth': st.sampled_from([60, 200]),
+                                                  'max_seq_len': st.sampled_from([None, 10 ** 5])})
     return {
+        'neutral': st.one_of(st.just({}), st.just({}), neutral),
         'st': st, 'leaf': leaf, 'hashable': hashable, 'value': value, 'cfg': cfg, 'width': width,
         'text': text, 'adv_text': adv_text, 'words': words, 'r_str': r_str, 'r_bytes': r_bytes,
         'value_ext': value_ext, 'hashable_ext': hashable_ext, 'r_int': r_int, 'r_float': r_float,
